@@ -486,6 +486,45 @@ def reduce_block_range(repo):
 VERUS_LIFTS["reduce_block"] = reduce_block_range
 
 
+# ---------------------------------------------------------------------------
+# TokenIterator::next (C06): the whole body of <TokenIterator as Iterator>::next as an inherent method, so that it can
+# carry a precondition (Verus: a trait method implementation cannot declare `requires`).
+
+def token_next_block_range(repo):
+    rel = "rustemo/src/lexer.rs"
+    src = rsx.Source(os.path.join(repo, rel))
+    imp = src.find_impl(r"^impl < 'i , TK , TR > Iterator for TokenIterator < 'i , TR , TK >")
+    fn = imp.child("fn", "next")
+    t = src.toks
+    sig = "".join(x.text for x in t[fn.kw:fn.body_open] if x.kind not in ("ws", "comment"))
+    if sig != "fnnext(&mutself)->Option<Self::Item>":
+        raise ExtractError("token_next block: signature of TokenIterator::next changed: %r" % sig)
+    item_ty = re.sub(r"\s+", "", imp.child("type", "Item").text())
+    if item_ty != "typeItem=Token<'i,str,TK>;":
+        raise ExtractError("token_next block: associated type Item changed: %r" % item_ty)
+    head = src.text[t[imp.start].s:t[imp.body_open].s]
+    m = re.match(r"\s*impl\s*(<[^>]*>)\s*Iterator\s+for\s+(TokenIterator\s*<[^>]*>)\s*where(.*)$", head, re.S)
+    if not m:
+        raise ExtractError("token_next block: unexpected impl header shape")
+    generics, self_ty, where = m.group(1), m.group(2), m.group(3).rstrip()
+    block_text = src.text[t[fn.body_open].e:t[fn.body_close].s]
+    used = set(idents(src, fn.body_open + 1, fn.body_close))
+    inside = bound_names_inside(src, fn.body_open + 1, fn.body_close)
+    if "self" not in used:
+        raise ExtractError("token_next block: body does not mention self")
+    sha = hashlib.sha256(block_text.encode()).hexdigest()[:16]
+    meta = {"lift": "token_next_block", "file": rel, "lines": [src.line_of(t[fn.body_open].s), src.line_of(t[fn.body_close].e)], "sha256_16": sha,
+            "free_variables": ["self"],
+            "note": "the whole body of <TokenIterator as Iterator>::next, verbatim, as the body of an inherent method `next_body(&mut self) -> Option<Token<'i, str, TK>>` "
+                    "(generics, self type and where-clause copied from the real impl header; `Self::Item` is `Token<'i, str, TK>`, checked): Verus does not let a trait "
+                    "method implementation declare a precondition, and the search contract needs one (the iterator's bookkeeping agrees with its cursor)"}
+    header = "impl%s %s\nwhere%s\n{\n    fn next_body(&mut self) -> Option<Token<'i, str, TK>> {" % (generics, self_ty, where)
+    return header + block_text + "}\n}\n", meta
+
+
+VERUS_LIFTS["token_next_block"] = token_next_block_range
+
+
 def lift_conflict_block(repo, gen):
     block_text, then_body, meta = conflict_block_range(repo)
     rel, declared, sha = meta["file"], meta["free_variables"], meta["sha256_16"]
